@@ -223,9 +223,14 @@ def run(ctx) -> None:
     ctx.floor("R7", "optional segments in Version.__str__", n_seg, 5)
     plv = prog.function(f"{M}._parse_letter_version")
     g = cfgs.get(plv.fq)
-    lowers = [n for n in g.nodes if n.kind == "stmt" and isinstance(n.ast, ast.Assign) and unparse(n.ast.targets[0]) == plv.params[0] and unparse(n.ast.value) == f"{plv.params[0]}.lower()"]
-    tests = [n for n in g.nodes if n.kind == "test" and isinstance(n.ast, ast.Compare) and unparse(n.ast.left) == plv.params[0] and isinstance(n.ast.ops[0], (ast.Eq, ast.In))]
-    ok = len(lowers) == 1 and tests and all(t.id not in g.reachable(blocked_nodes=[lowers[0].id]) for t in tests)
+    # the lower-cased spelling is stored back into the parameter or into a local; every spelling test reads that variable
+    # after the assignment
+    lowers = [n for n in g.nodes if n.kind == "stmt" and isinstance(n.ast, (ast.Assign, ast.AnnAssign)) and n.ast.value is not None
+              and unparse(n.ast.value) in (f"{plv.params[0]}.lower()", f"{plv.params[0]}.casefold()")]
+    low_var = unparse(lowers[0].ast.targets[0] if isinstance(lowers[0].ast, ast.Assign) else lowers[0].ast.target) if len(lowers) == 1 else None
+    tests = [n for n in g.nodes if n.kind == "test" and isinstance(n.ast, ast.Compare) and unparse(n.ast.left) in (plv.params[0], low_var) and isinstance(n.ast.ops[0], (ast.Eq, ast.In))
+             and isinstance(n.ast.comparators[0], (ast.Constant, ast.List, ast.Tuple, ast.Set))]
+    ok = len(lowers) == 1 and bool(tests) and all(unparse(t.ast.left) == low_var and t.id not in g.reachable(blocked_nodes=[lowers[0].id]) for t in tests)
     ctx.check("R7", ok, "_parse_letter_version lower-cases the letter before comparing spellings (the regex is case-insensitive)",
               f"{M}._parse_letter_version: alternate spellings are compared before lower-casing", "e.g. 1.0ALPHA1 is not normalised to 1.0a1", loc=plv.loc(), witness="1.0ALPHA1")
 
